@@ -354,6 +354,11 @@ func sharedNames(s map[*types.Named]bool) []string {
 // unitWithHelpers: fn, the closures nested in it, and the functions of the same package they call
 // statically (two levels): what a maintainer would regard as "this function", however it is cut up.
 func unitWithHelpers(p *an.Prog, fn *ssa.Function) []*ssa.Function {
+	return unitWithHelpersDepth(p, fn, 2)
+}
+
+// unitWithHelpersDepth is unitWithHelpers with the number of levels of helpers given.
+func unitWithHelpersDepth(p *an.Prog, fn *ssa.Function, levels int) []*ssa.Function {
 	seen := map[*ssa.Function]bool{}
 	var out []*ssa.Function
 	var add func(f *ssa.Function, depth int)
@@ -366,7 +371,7 @@ func unitWithHelpers(p *an.Prog, fn *ssa.Function) []*ssa.Function {
 		for _, a := range f.AnonFuncs {
 			add(a, depth)
 		}
-		if depth >= 2 {
+		if depth >= levels {
 			return
 		}
 		an.EachCall(f, func(ci ssa.CallInstruction) {
